@@ -1,4 +1,6 @@
 import Chewing.Props.C04
+import Chewing.Props.C06
+import Chewing.Proofs.EditorCursor
 /-!
 # C05 — editing keys act exactly at the cursor and the buffer stays bounded (component level)
 
@@ -385,5 +387,246 @@ example : ∃ e', demoEd.removeAfterCursor = .ok e' ∧ e'.symbols = [.syl 0x2A4
 /-- save the cursor, delete two symbols, restore: the restored cursor is clamped to the new length -/
 example : ∃ e1, demoEd.moveToEnd.pushCursor.run [.removeBeforeCursor, .removeBeforeCursor] = .ok e1 ∧
     e1.popCursor.cursor = 1 ∧ e1.popCursor.stack = [3] := ⟨_, rfl, rfl, rfl⟩
+
+/-! # Editor level
+
+Everything below is about the editor state machine (`Model/Editor.lean`, `src/editor/mod.rs`), for
+EVERY environment `env` (dictionary, phonetic layout, conversion engine, estimator).
+
+## The invariant: `cursor ≤ len` after every public operation, in every state
+
+The editor touches its pre-edit buffer only through `CompositionEditor` methods
+(`Proofs/EditorCursor.lean`: `Reach`), and `cursor_le_len_step` needs no precondition on the method
+arguments — in particular none on the interval that `Selecting::select` pushes (`ValidSelection` is
+needed for the selection invariants of C04, not for the cursor) — so the invariant lifts to every
+operation and every history with NO hypothesis on the environment or the selector. -/
+
+open Chewing.C06
+
+section EditorLevel
+variable {D L : Type} (env : Env D L)
+
+theorem map_ok {α β : Type} {f : α → β} {r : Outcome α} {b : β} (h : r.map f = .ok b) : ∃ a, r = .ok a ∧ f a = b := by
+  cases r with
+  | ok a => simp only [Outcome.map] at h; injection h with h; exact ⟨a, rfl, h⟩
+  | panic p => simp [Outcome.map] at h
+  | outOfFuel => simp [Outcome.map] at h
+
+/-- the component invariant lifts along `Reach` -/
+theorem reach_cursorInv {c c' : CompEditor} (h : Reach c c') (hi : CursorInv c) : CursorInv c' := by
+  induction h with
+  | refl _ => exact hi
+  | step op h _ ih => exact ih (cursor_le_len_step _ op _ hi h)
+
+/-- the state machine part of a key touches the pre-edit only through `CompositionEditor` methods -/
+theorem dispatch_reach {e : Editor D L} {ev : KeyEvent} {sh : Shared D L} {st : St}
+    (h : dispatch env e ev = .ok (sh, st)) : Reach e.shared.com sh.com := by
+  unfold dispatch at h
+  split at h
+  · obtain ⟨⟨sh', t⟩, hr, hx⟩ := map_ok h
+    have := rstep_enteringNext env (preamble e.shared) ev sh' t hr
+    cases t <;> (simp only [applyTrans] at hx; injection hx with h1 h2; subst h1; exact this)
+  · obtain ⟨⟨sh', t⟩, hr, hx⟩ := map_ok h
+    have := rstep_enteringSyllableNext env (preamble e.shared) ev sh' t hr
+    cases t <;> (simp only [applyTrans] at hx; injection hx with h1 h2; subst h1; exact this)
+  · rename_i s _
+    obtain ⟨x, hr, hx⟩ := map_ok h
+    have := rsel_selectingNext env s (preamble e.shared) ev x hr
+    cases ht : x.trans <;> (rw [ht] at hx; simp only [applyTrans] at hx; injection hx with h1 h2; subst h1; exact this)
+  · rename_i m _
+    obtain ⟨⟨sh', m', t⟩, hr, hx⟩ := map_ok h
+    have := (highlighting_reach env m (preamble e.shared) ev).elim hr
+    cases t <;> (simp only [applyTrans] at hx; injection hx with h1 h2; subst h1; exact this)
+
+/-- the tail of `process_keyevent`: state kept, result = recorded behaviour, shared state = result of
+    the (conditional) auto-commit with a dirty dictionary flushed -/
+theorem tail_spec {sh : Shared D L} {st : St} {e' : Editor D L} {b : KB} (h : tail env sh st = .ok (e', b)) :
+    e'.state = st ∧ b = e'.shared.last ∧
+    ∃ sh2, (if st == .entering && sh.last == .absorb then Shared.tryAutoCommit env sh else .ok sh) = .ok sh2 ∧
+      e'.shared = (if sh2.dirty > 0 then { sh2 with dict := env.reopenFlush sh2.dict, dirty := 0 } else sh2) := by
+  unfold tail at h
+  split at h
+  · cases h
+  · cases h
+  · rename_i sh2 hq
+    injection h with h; injection h with h1 h2
+    subst h1
+    exact ⟨rfl, h2.symm, sh2, hq, rfl⟩
+
+theorem tail_com {sh : Shared D L} {st : St} {e' : Editor D L} {b : KB} (h : tail env sh st = .ok (e', b)) :
+    ∃ sh2, (if st == .entering && sh.last == .absorb then Shared.tryAutoCommit env sh else .ok sh) = .ok sh2 ∧
+      e'.shared.com = sh2.com ∧ e'.shared.options = sh2.options ∧ e'.shared.commitBuf = sh2.commitBuf ∧
+      e'.shared.last = sh2.last ∧ e'.shared.syl = sh2.syl := by
+  obtain ⟨_, _, sh2, h1, h2⟩ := tail_spec env h
+  refine ⟨sh2, h1, ?_⟩
+  rw [h2]
+  split <;> exact ⟨rfl, rfl, rfl, rfl, rfl⟩
+
+theorem tail_reach {sh : Shared D L} {st : St} {e' : Editor D L} {b : KB} (h : tail env sh st = .ok (e', b)) :
+    Reach sh.com e'.shared.com := by
+  obtain ⟨sh2, h1, h2, _⟩ := tail_com env h
+  rw [h2]
+  split at h1
+  · exact (tryAutoCommit_reach env sh).elim h1
+  · cases h1; exact .refl _
+
+/-- a key event = the state's `next`, then the tail -/
+theorem processKey_split {e e' : Editor D L} {ev : KeyEvent} {b : KB} (h : e.processKey env ev = .ok (e', b)) :
+    ∃ sh st, dispatch env e ev = .ok (sh, st) ∧ tail env sh st = .ok (e', b) := by
+  rw [processKey_eq] at h
+  split at h
+  · cases h
+  · cases h
+  · rename_i sh st hd; exact ⟨sh, st, hd, h⟩
+
+theorem processKey_reach {e e' : Editor D L} {ev : KeyEvent} {b : KB} (h : e.processKey env ev = .ok (e', b)) :
+    Reach e.shared.com e'.shared.com := by
+  obtain ⟨sh, st, h1, h2⟩ := processKey_split env h
+  exact (dispatch_reach env h1).trans (tail_reach env h2)
+
+theorem select_api_reach {e e' : Editor D L} {n : Nat} {okk : Bool} (h : e.select env n = .ok (e', okk)) :
+    Reach e.shared.com e'.shared.com := by
+  unfold Editor.select at h
+  split at h
+  · rename_i s _
+    split at h
+    · rename_i s' sh t hq
+      have hr : Reach e.shared.com sh.com := (select_reach env s e.shared n).elim hq
+      dsimp only at h
+      have hat : (applyTrans sh (.selecting s') t).1.com = sh.com := by cases t <;> rfl
+      split at h
+      · rename_i sh2 hq2
+        injection h with h; injection h with h1 h2; subst h1
+        refine hr.trans ?_
+        rw [← hat]
+        split at hq2
+        · exact (tryAutoCommit_reach env _).elim hq2
+        · cases hq2; exact .refl _
+      · cases h
+      · cases h
+    · cases h
+    · cases h
+  · injection h with h; injection h with h1 h2; subst h1; exact .refl _
+
+theorem leaveIfEmpty_shared (e : Editor D L) : (Editor.leaveIfEmpty env e).shared = e.shared := by
+  unfold Editor.leaveIfEmpty; split <;> rfl
+
+theorem startSelecting_api_reach {e e' : Editor D L} {okk : Bool} (h : e.startSelecting env = .ok (e', okk)) :
+    Reach e.shared.com e'.shared.com := by
+  unfold Editor.startSelecting at h
+  dsimp only at h
+  split at h
+  · rename_i sh t hq
+    injection h with h; injection h with h1 h2; subst h1
+    rw [leaveIfEmpty_shared]
+    have hat : (applyTrans sh e.state t).1.com = sh.com := by cases t <;> rfl
+    show Reach e.shared.com (applyTrans sh e.state t).1.com
+    rw [hat]
+    split at hq
+    · exact rstep_startSelecting env e.shared sh t hq
+    · exact rstep_startSelecting env { e.shared with syl := env.clearSyl e.shared.syl } sh t hq
+    · injection hq with hq; injection hq with h1 h2; subst h1; exact .refl _
+  · cases h
+  · cases h
+
+theorem commit_api_reach {e e' : Editor D L} {okk : Bool} (h : e.commit env = .ok (e', okk)) :
+    Reach e.shared.com e'.shared.com := by
+  unfold Editor.commit at h
+  split at h
+  · injection h with h; injection h with h1 h2; subst h1; exact .refl _
+  · split at h
+    · rename_i sh hq
+      injection h with h; injection h with h1 h2; subst h1
+      show Reach e.shared.com sh.com
+      rw [(commit_com env e.shared).elim hq]
+      exact Reach.clear _
+    · cases h
+    · cases h
+
+theorem jump_shared {e e' : Editor D L} {w : Nat} {okk : Bool} (h : e.jump env w = .ok (e', okk)) :
+    e'.shared = e.shared := by
+  unfold Editor.jump at h
+  repeat' (first | split at h | (dsimp only at h; split at h))
+  all_goals first
+    | (injection h with h; injection h with h1 h2; subst h1; rfl)
+    | cases h
+
+/-- **every public operation of the editor acts on the pre-edit buffer through `CompositionEditor`
+    methods only** -/
+theorem apply_reach {e e' : Editor D L} (op : Op L) (h : e.apply env op = .ok e') :
+    Reach e.shared.com e'.shared.com := by
+  cases op with
+  | key ev =>
+    obtain ⟨⟨e1, b⟩, hr, hx⟩ := map_ok h; subst hx; exact processKey_reach env hr
+  | select n =>
+    obtain ⟨⟨e1, b⟩, hr, hx⟩ := map_ok h; subst hx; exact select_api_reach env hr
+  | startSelecting =>
+    obtain ⟨⟨e1, b⟩, hr, hx⟩ := map_ok h; subst hx; exact startSelecting_api_reach env hr
+  | cancelSelecting =>
+    simp only [Editor.apply, Editor.cancelSelecting] at h
+    injection h with h; subst h
+    split
+    · exact Reach.popCursor _
+    · exact .refl _
+  | commit =>
+    obtain ⟨⟨e1, b⟩, hr, hx⟩ := map_ok h; subst hx; exact commit_api_reach env hr
+  | clear => injection h with h; subst h; exact Reach.clear _
+  | ack => injection h with h; subst h; exact .refl _
+  | clearSyl =>
+    injection h with h; subst h
+    show Reach e.shared.com (Editor.leaveIfEmpty env _).shared.com
+    rw [leaveIfEmpty_shared]; exact .refl _
+  | setOptions o =>
+    injection h with h; subst h
+    show Reach e.shared.com (Editor.leaveIfEmpty env _).shared.com
+    rw [leaveIfEmpty_shared]
+    dsimp only
+    split <;> exact .refl _
+  | setLayout l =>
+    injection h with h; subst h
+    show Reach e.shared.com (Editor.leaveIfEmpty env _).shared.com
+    rw [leaveIfEmpty_shared]; exact .refl _
+  | setEngine k => injection h with h; subst h; exact .refl _
+  | learn k p =>
+    obtain ⟨⟨sh, b⟩, hr, hx⟩ := map_ok h; subst hx
+    show Reach e.shared.com sh.com
+    rw [(learnPhrase_com env e.shared k p).elim hr]; exact .refl _
+  | unlearn k p => injection h with h; subst h; exact .refl _
+  | jump w =>
+    obtain ⟨⟨e1, b⟩, hr, hx⟩ := map_ok h; subst hx
+    show Reach e.shared.com e1.shared.com
+    rw [jump_shared env hr]; exact .refl _
+
+theorem run_reach (ops : List (Op L)) : ∀ (e e' : Editor D L), e.run env ops = .ok e' →
+    Reach e.shared.com e'.shared.com := by
+  induction ops with
+  | nil => intro e e' h; simp only [Editor.run] at h; cases h; exact .refl _
+  | cons op ops ih =>
+    intro e e' h
+    simp only [Editor.run] at h
+    split at h
+    · next e1 h1 => exact (apply_reach env op h1).trans (ih e1 e' h)
+    · cases h
+    · cases h
+
+/-- **C05, invariant (one operation).**  `cursor ≤ len` (and `symbols.len() == gaps.len()`) is kept by
+    every public operation of the editor: every key in every state, `select`, `start_selecting`, … —
+    for every environment, with no hypothesis on the selector, the dictionary or the engine
+    (the `CompositionEditor` methods clamp / saturate by themselves). -/
+theorem cursor_le_len_editor_step {e e' : Editor D L} (op : Op L) (hi : CursorInv e.shared.com)
+    (h : e.apply env op = .ok e') : CursorInv e'.shared.com :=
+  reach_cursorInv (apply_reach env op h) hi
+
+/-- **C05, invariant (every history).** -/
+theorem cursor_le_len_editor (ops : List (Op L)) (e e' : Editor D L) (hi : CursorInv e.shared.com)
+    (h : e.run env ops = .ok e') : CursorInv e'.shared.com :=
+  reach_cursorInv (run_reach env ops e e' h) hi
+
+/-- from a fresh editor: the cursor lies between 0 and the buffer length after every history -/
+theorem cursor_le_len_editor_fresh (ops : List (Op L)) (e e' : Editor D L) (h0 : e.shared.com = {})
+    (h : e.run env ops = .ok e') : e'.shared.com.cursor ≤ e'.shared.com.len :=
+  (cursor_le_len_editor env ops e e' (by rw [h0]; exact cursorInv_new) h).2
+
+end EditorLevel
 
 end Chewing.C05
